@@ -148,6 +148,9 @@ def body(chk):
     from harness import sessioncheck
 
     sessioncheck.standard(chk)
+    from harness import tlaps
+
+    tlaps.prove(chk)
     chk.finish(
         rule="cases = every (n,p,prefix,bps,rpc) geometry of the TLC family x filesystems x selections (full image + "
              "TLC-enumerated row progressions) + seeded random geometries outside the bound; distinct = distinct "
